@@ -275,7 +275,7 @@ class PyLib:
             for f in fs:
                 args = ", ".join(p.cxx(L) for p in f.params)
                 if f.ctor:
-                    init = "flag(%s)" % (f.params[0].name if f.params else "-1")
+                    init = "flag(%s)" % ("flag" if any(p.name == "flag" for p in f.params) else "-1")
                     out.append("  %s(%s) : %s { %s }" % (cname, args, init, _body(f, L)))
                 else:
                     out.append("  %s(%s) { %s }" % (f.decl(L).split("(")[0], args, _body(f, L)))
@@ -382,7 +382,126 @@ def fixed_cxx(name):
         F("useptr", "int", [P("clsptr", "c", cls=C), P("int", "i")]),
         F("outmid", "int", [P("int", "i"), P("double_out", "o"), P("int", "j", default=30), P("long", "k", default=40)]),
         F("nothing", "void", []),
+        # overload sets with an overload whose parameters are ALL defaulted (zero required arguments)
+        F("scale", "int", [P("int", "a", default=1), P("int", "b", default=2)], label="scale#0"),
+        F("scale", "int", [P("string", "s")], label="scale#1"),
+        F("tail", "void", [P("string", "s"), P("int", "n", default=5)], label="tail#0"),
+        F("tail", "void", [P("double", "x", default=0.5), P("long", "y", default=6), P("int", "z", default=7)], label="tail#1"),
+        F("zero", "int", [], label="zero#0"),
+        F("zero", "int", [P("int", "a"), P("int", "b", default=2)], label="zero#1"),
     ]
+    cls += [
+        F("bump", "void", [P("int", "by", default=1), P("int", "times", default=1)], cls=C, label="Cls0.bump#0"),
+        F("bump", "void", [P("string", "spec")], cls=C, label="Cls0.bump#1"),
+    ]
+    D, O = "Dflt", "Ovc"
+    dcls = [F(D, None, [P("int", "flag", default=3), P("long", "k", default=4)], cls=D, ctor=True, label="Dflt#0"),
+            F("get", "int", [], cls=D, label="Dflt.get")]
+    ocls = [F(O, None, [P("int", "flag", default=7), P("int", "k", default=8)], cls=O, ctor=True, label="Ovc#0"),
+            F(O, None, [P("string", "s")], cls=O, ctor=True, label="Ovc#1"),
+            F("get", "int", [P("int", "by", default=1)], cls=O, label="Ovc.get")]
+    return PyLib(name, "c++", fs, {C: cls, D: dcls, O: ocls})
+
+
+NUMERIC = ["int", "long", "double"]
+
+
+def default_for(kind, i):
+    return (2.5 + i) if kind == "double" else (10 * (i + 1) + i)
+
+
+def shaped(r, name, n, d, head=None, cls=None, prefix="p", out_at=None, result=None):
+    """an overload with n Python-visible parameters of which those from position d on are defaulted
+    (d == n: no default; d == 0: every parameter defaulted, zero required arguments)"""
+    params = []
+    for i in range(n):
+        if i >= d:
+            kind = head if (i == 0 and head in NUMERIC) else r.choice(NUMERIC)
+        elif i == 0 and head:
+            kind = head
+        else:
+            kind = r.choice(["int", "long", "double", "bool", "cstr", "string", "short"])
+        params.append(P(kind, "%s%d" % (prefix, i), default=default_for(kind, i) if i >= d else None))
+    if out_at is not None and out_at <= min(d, n):
+        params.insert(out_at, P("int_out", prefix + "o"))
+    res = result or r.choice(["void", "int", "double", "bool"])
+    return F(name, res, params, cls=cls)
+
+
+def shape_of(f):
+    vis = f.vis
+    nd = sum(1 for p in vis if p.default is not None)
+    first = next((i for i, p in enumerate(vis) if p.default is not None), len(vis))
+    return (len(vis), nd, first)
+
+
+def _cxx_window(f):
+    types = [p.kind for p in f.params]
+    req = sum(1 for p in f.params if p.default is None)
+    return types, req
+
+
+def unambiguous(a, b):
+    """C++ accepts both declarations and every call the wrappers make: for every argument count k that
+    both overloads accept, their first k parameter types differ"""
+    ta, ra = _cxx_window(a)
+    tb, rb = _cxx_window(b)
+    for k in range(max(ra, rb), min(len(ta), len(tb)) + 1):
+        if ta[:k] == tb[:k]:
+            return False
+    return True
+
+
+def overload_set(r, base, shapes, cls=None, label_prefix=""):
+    """overloads `base` with the given (n, d) shapes, distinguishable by the type of the first parameter;
+    shapes that would be ambiguous in C++ next to the ones already chosen are re-drawn or dropped"""
+    shared = r.random() < 0.5          # same parameter names in every overload, or distinct per overload
+    fs = []
+    used = []
+    for k, (n, d) in enumerate(shapes):
+        for _try in range(20):
+            if n == 0:
+                head = None
+            elif d == 0:
+                head = r.choice([h for h in ["int", "double", "long"] if h not in used] or ["long"])
+            else:
+                head = r.choice([h for h in ["string", "bool", "cstr", "int", "double"] if h not in used] or ["short"])
+            out_at = r.randrange(0, min(d, n) + 1) if r.random() < 0.25 else None
+            f = shaped(r, base, n, d, head=head, cls=cls, prefix="p" if shared else "pqrs"[k % 4], out_at=out_at)
+            if all(unambiguous(f, g) for g in fs):
+                break
+        else:
+            continue
+        if head:
+            used.append(head)
+        fs.append(f)
+    for k, f in enumerate(fs):
+        f.label = "%s%s#%d" % (label_prefix, base, k)
+    if len(fs) == 1:
+        fs[0].label = label_prefix + base
+    return fs
+
+
+GRID = [(n, d) for n in range(6) for d in range(n + 1)]
+
+
+def grid_cxx(r, name):
+    """every shape (n parameters, defaults from position d), 0 <= d <= n <= 5, inside an overload set,
+    as free functions and as methods; the partner overloads are distinguishable by type and have shapes of
+    their own; the all-defaulted overload comes first in some sets and last in others"""
+    C = "Grid"
+    cls = [F(C, None, [], cls=C, ctor=True, label=C + "#0"),
+           F(C, None, [P("int", "flag")], cls=C, ctor=True, label=C + "#1")]
+    fs = []
+    for idx, (n, d) in enumerate(GRID):
+        partner = r.choice([(1, 1), (2, 1), (2, 2), (3, 1), (1, 1)])
+        shapes = [(n, d), partner] if idx % 2 == 0 else [partner, (n, d)]
+        if idx % 5 == 0:
+            shapes.append(r.choice(GRID))
+        fs += overload_set(r, "g%d%d" % (n, d), shapes)
+        if n <= 3 or d == 0 or (n, d) == (5, 2):
+            shapes = [(n, d), r.choice([(1, 1), (2, 1)])] if idx % 2 else [r.choice([(1, 1), (2, 1)]), (n, d)]
+            cls += overload_set(r, "m%d%d" % (n, d), shapes, cls=C, label_prefix=C + ".")
     return PyLib(name, "c++", fs, {C: cls})
 
 
@@ -395,16 +514,28 @@ def random_cxx(r, name, nfunc=8):
     fs = []
     for i in range(nfunc):
         fs.append(rand_function(r, "c++", r.choice(["alpha", "Beta", "gam_ma"]) + str(i), cls_arg=C))
-    # an overload set distinguished by arity / first parameter type
-    base = "ov%d" % r.randrange(9)
-    a = rand_function(r, "c++", base, cls_arg=C, nmax=2)
-    a.params = [P("int", "x")] + [p for p in a.params if p.default is None or True]
-    b = rand_function(r, "c++", base, cls_arg=C, nmax=2)
-    b.params = [P("string", "y")] + b.params
-    _rename(a); _rename(b)
-    a.label, b.label = base + "#0", base + "#1"
-    fs += [a, b]
-    return PyLib(name, "c++", fs, {C: cls})
+    # overload sets of size 2..3 with random shapes (free functions and one method set)
+    for k in range(3):
+        shapes = [r.choice(GRID) for _ in range(r.choice([2, 2, 3]))]
+        if k == 0:
+            shapes[r.randrange(len(shapes))] = (r.randrange(1, 6), 0)      # always one all-defaulted overload
+        fs += overload_set(r, "ov%d" % k, shapes)
+    shapes = [r.choice(GRID), (r.randrange(1, 4), 0)]
+    r.shuffle(shapes)
+    cls += overload_set(r, "mov", shapes, cls=C, label_prefix=C + ".")
+    # a second class whose only constructor has defaults, and one with an overloaded defaulted constructor
+    D = "Dfl%d" % r.randrange(9)
+    dn = r.randrange(1, 4)
+    dparams = [P("int", "flag", default=3)] + [P(r.choice(NUMERIC), "k%d" % i, default=None) for i in range(dn - 1)]
+    for i, p in enumerate(dparams):
+        p.default = default_for(p.kind, i)
+    dd = r.randrange(0, 2)       # instances for method calls are made with Cls(flag): at most `flag` is required
+    for p in dparams[:dd]:
+        p.default = None
+    dcls = [F(D, None, dparams, cls=D, ctor=True, label=D + "#0"),
+            F(D, None, [P("string", "s")], cls=D, ctor=True, label=D + "#1"),
+            F("get", "int", [], cls=D, label=D + ".get")]
+    return PyLib(name, "c++", fs, {C: cls, D: dcls})
 
 
 def _rename(f):
